@@ -704,6 +704,31 @@ for _w in ("header_del", "claim_del"):
         "jwt_t *j; const char *f; jwt_%s(j, f);" % _w, "jwt_%s/contract_C15_jwt_%s" % (_w, _w), replace=_REC_DOERS, assumed_contracts=_REC_DOERS,
         stubs=LIBC, flags=[], expect=["contract_C15_jwt_%s\\.postcondition\\.2" % _w], timeout=300))
 
+
+# ---- jwt-common.c: error accessors, callback registration, checker iss/sub/aud policy, builder header/claim wrappers ----
+def _cmd_unit(prop, side, fn, cname, body, n, replace=(), **kw):
+    pre = "jwt_%s" % side.lower()
+    return U("%s.%s_%s" % (prop, pre, fn), "%s_%s (libjwt/jwt-common.c)" % (pre, fn), common_tu(side), "contracts/jwt_common_c.h", body % {"p": pre},
+             "%s_%s/%s" % (pre, fn, cname), replace=list(replace), assumed_contracts=list(replace), stubs=kw.pop("stubs", LIBC), defines=["VERIF_TU_" + side], flags=[],
+             expect=[cname + "\\.postcondition\\.%d" % n], timeout=300, **kw)
+for _side in ("CHECKER", "BUILDER"):
+    _t = "jwt_%s_t" % _side.lower()
+    for _prop, _fn, _c, _body, _n in (
+        ("C14", "error", "contract_C14_cmd_error", "const " + _t + " *c; %(p)s_error(c);", 1),
+        ("C14", "error_msg", "contract_C14_cmd_error_msg", "const " + _t + " *c; %(p)s_error_msg(c);", 1),
+        ("C13", "error_clear", "contract_C13_cmd_error_clear", _t + " *c; %(p)s_error_clear(c);", 1),
+        ("C13", "setcb", "contract_C13_cmd_setcb", _t + " *c; jwt_callback_t cb; void *x; %(p)s_setcb(c, cb, x);", 4),
+        ("C13", "getctx", "contract_C13_cmd_getctx", _t + " *c; %(p)s_getctx(c);", 1)):
+        P[_prop]["units"].append(_cmd_unit(_prop, _side, _fn, _c, _body, _n))
+P["C04"]["units"] += [
+    _cmd_unit("C04", "CHECKER", "claim_set", "contract_C04_jwt_checker_claim_set", "jwt_checker_t *c; jwt_claims_t t; const char *v; %(p)s_claim_set(c, t, v);", 3,
+              stubs=LIBC + ["stubs/doer_rec.c"]),
+    _cmd_unit("C04", "CHECKER", "claim_del", "contract_C04_jwt_checker_claim_del", "jwt_checker_t *c; jwt_claims_t t; %(p)s_claim_del(c, t);", 3,
+              stubs=LIBC + ["stubs/doer_rec.c"])]
+for _w, _n in (("header_get", 3), ("header_set", 3), ("claim_get", 3), ("claim_set", 3)):
+    P["C15"]["units"].append(_cmd_unit("C15", "BUILDER", _w, "contract_C15_jwt_builder_" + _w, "jwt_builder_t *b; jwt_value_t *v; %(p)s_" + _w + "(b, v);", _n, replace=_REC_DOERS))
+for _w in ("header_del", "claim_del"):
+    P["C15"]["units"].append(_cmd_unit("C15", "BUILDER", _w, "contract_C15_jwt_builder_" + _w, "jwt_builder_t *b; const char *f; %(p)s_" + _w + "(b, f);", 2, replace=_REC_DOERS))
 # ---------------------------------------------------------------------------
 # cross-listing: a unit decides a clause every property that depends on that function needs
 # (modular verification: each property's list must contain every function between the
